@@ -231,6 +231,29 @@ def task(i, fault, how, arg, sleep, arm=False):
     ('arg_unpickle' acts through `arg`, a Bomb)."""
     if arm:
         arm_idle_exit()
+    if fault == "stubborn":
+        # sibling of the victim: ignores the polite signals and runs far longer than any watchdog; only SIGKILL
+        # (what kill_workers must use) gets rid of it
+        signal.signal(signal.SIGTERM, signal.SIG_IGN)
+        signal.signal(signal.SIGINT, signal.SIG_IGN)
+        tmp = os.path.join(SYNC, "stub_%d.tmp" % i)
+        with open(tmp, "w") as f:
+            f.write(str(os.getpid()))
+        os.rename(tmp, os.path.join(SYNC, "stub_%d" % i))
+        time.sleep(600)
+    if fault == "die_announced":
+        tmp = os.path.join(SYNC, "victim.tmp")
+        with open(tmp, "w") as f:
+            f.write(str(os.getpid()))
+        os.rename(tmp, os.path.join(SYNC, "victim"))
+        die(how)
+    if fault == "wait_stubborn":
+        # the victim dies once every sibling has installed its handlers
+        t = time.time()
+        while time.time() - t < 10 and len([x for x in os.listdir(SYNC) if x.startswith("stub_") and not x.endswith(".tmp")]) < int(arg.payload):
+            time.sleep(0.01)
+        time.sleep(0.1)
+        die(how)
     if fault == "task_start":
         die(how)
     if fault == "die_when_mgr_busy":
